@@ -132,14 +132,39 @@ fn replay_file(engine: &str, prop: &str, tier: &str, master: u64, index: u64, se
 /// One run = one fresh 2 MiB thread: thread-local state of the code under test cannot leak from
 /// one run into the next, so a scenario is self-contained (process-global state still can leak;
 /// see `ReplayFile::prelude`).
-fn run_isolated(scn: Scn, mut stats: Stats) -> (Scn, Outcome, Stats, (u64, u64, u64)) {
-    on_big_stack(move || {
-        common::install_panic_hook();
-        engine::install_hooks();
-        let o = execute(&scn, &mut stats);
-        let hooks = (engine::stack_max() as u64, engine::end_renders(), engine::steps_total());
-        (scn, o, stats, hooks)
-    })
+fn run_isolated(scn: Scn, stats: Stats) -> (Scn, Outcome, Stats, (u64, u64, u64)) {
+    common::install_panic_hook();
+    let backup = scn.clone();
+    let shared = std::sync::Arc::new(std::sync::Mutex::new(stats));
+    let shared2 = shared.clone();
+    let h = std::thread::Builder::new()
+        .stack_size(2 << 20)
+        .name("sim".into())
+        .spawn(move || {
+            engine::install_hooks();
+            let mut st = std::mem::take(&mut *shared2.lock().unwrap());
+            let o = execute(&scn, &mut st);
+            *shared2.lock().unwrap() = st;
+            let hooks = (engine::stack_max() as u64, engine::end_renders(), engine::steps_total());
+            (scn, o, hooks)
+        })
+        .expect("spawn");
+    match h.join() {
+        Ok((scn, o, hooks)) => {
+            let st = std::mem::take(&mut *shared.lock().unwrap());
+            (scn, o, st, hooks)
+        }
+        Err(_) => {
+            // a panic escaped every guard of the engine (an engine call the oracles make outside
+            // catch_unwind, or the simulator's own code): never lose it, never die silently
+            let msg = common::LAST_PANIC_GLOBAL.lock().ok().and_then(|g| g.clone()).unwrap_or_default();
+            let from_tera = msg.contains("/tera/src/");
+            let mut o = Outcome::default();
+            o.violations.push(Violation::new(if from_tera { "C07" } else { "HARNESS" }, "panic-outside-guards", msg));
+            let st = std::mem::take(&mut *shared.lock().unwrap_or_else(|e| e.into_inner()));
+            (backup, o, st, (0, 0, 0))
+        }
+    }
 }
 
 #[derive(Serialize)]
@@ -207,7 +232,10 @@ fn cmd_run(m: BTreeMap<String, String>) -> i32 {
                 outcome.deferred.clear();
             }
             if want_fp {
-                fps.push((i, outcome.fingerprint));
+                // the fingerprint also covers the generated scenario itself: generate(seed) must
+                // re-create it byte for byte
+                let sj = serde_json::to_vec(&scn).unwrap_or_default();
+                fps.push((i, outcome.fingerprint ^ rng::fnv1a(&sj).rotate_left(17)));
             }
             for d in outcome.deferred {
                 let shape = d.get("crash_shape").and_then(|s| s.as_str()).unwrap_or("").to_string();
